@@ -31,11 +31,11 @@ def selectBody (c : Ctx) (fl : QFlags) (from_ : List Src) (withs : List (Str × 
   opt prewheres.isSome (K " PREWHERE ") ++ renderOpt { k with quote := .given k.q, subquery := true } prewheres ++
   opt wheres.isSome (K " WHERE ") ++ renderOpt { k with quote := .given k.q, subquery := true } wheres ++
   opt (!groupbys.isEmpty) (kws " GROUP BY " ::
-    joinDocs (K ",") (renderGroupBy { k with quote := .given k.q, groupbyAlias := true } selects k.groupbyAlias k.aq groupbys) ++
+    joinDocs (K ",") (renderGroupBy { k with quote := .given k.q, groupbyAlias := true, subquery := true } selects k.groupbyAlias k.aq groupbys) ++
     opt fl.withTotals (K " WITH TOTALS") ++ opt fl.mysqlRollup (K " WITH ROLLUP")) ++
-  opt havings.isSome (K " HAVING ") ++ renderOpt { k with quote := .given k.q } havings ++
+  opt havings.isSome (K " HAVING ") ++ renderOpt { k with quote := .given k.q, subquery := true } havings ++
   opt (!orderbys.isEmpty) (kws " ORDER BY " ::
-    joinDocs (K ",") (renderOrderBy { k with quote := .given k.q } selects k.aq orderbys)) ++
+    joinDocs (K ",") (renderOrderBy { k with quote := .given k.q, subquery := true } selects k.aq orderbys)) ++
   paginate .sqlite fl.limit fl.offset ++ forUpdateDoc fl k.q
 
 /-- **clauses in standard order.**  A SQLite SELECT (no INSERT / UPDATE target, not a DELETE, at least one select
